@@ -42,7 +42,27 @@ const CANARY: u64 = 0xC0FF_EE00_C0FF_EE00;
 static LENT: [AtomicBool; 2] = [AtomicBool::new(false), AtomicBool::new(false)];
 static USES_IN_WINDOW: AtomicU64 = AtomicU64::new(0);
 
+/// a thread started inside the current lending call has not been joined yet
+static WORKER_ALIVE: AtomicBool = AtomicBool::new(false);
+
 fn outside_window(what: &str, when: &str) -> ! {
+    // Who enters a method outside the window, and in which history, names the
+    // finding: a worker whose view of the object was taken inside the window;
+    // a new use by the lending thread that is admitted because such a worker
+    // still holds its view; or a new use with nobody else around (then the
+    // invalidation at the end of the lending call itself does not work).
+    let when = if when == "at-entry" {
+        let me = sched::current().unwrap_or(0);
+        if me != 0 {
+            "at-entry/worker-whose-view-was-taken-inside-the-window".to_string()
+        } else if WORKER_ALIVE.load(Ordering::SeqCst) {
+            "at-entry/new-use-admitted-while-a-worker-still-holds-a-view".to_string()
+        } else {
+            "at-entry/new-use-admitted".to_string()
+        }
+    } else {
+        when.to_string()
+    };
     report::violation(
         &format!("C20/host-object-touched-outside-lending-window/{}", when),
         format!("the method {} of the lent object ran ({}) while the object was not lent", what, when),
@@ -250,6 +270,7 @@ impl Scenario for C20 {
                 vmh::set_yield_at_dispatch(true);
             }
             // ---- the lending window
+            WORKER_ALIVE.store(fault == "thread", Ordering::SeqCst);
             LENT[0].store(true, Ordering::SeqCst);
             let res = if fault == "host-panic" {
                 // the host's own code inside the lending call panics after the
@@ -357,6 +378,7 @@ impl Scenario for C20 {
             if fault == "thread" {
                 // let the worker finish (it must stop by an error, or have finished inside the window)
                 let jr = vmh::eval(&mut engine, "(thread-join! (unbox worker))");
+                WORKER_ALIVE.store(false, Ordering::SeqCst);
                 vmh::set_yield_at_dispatch(false);
                 match jr {
                     Ok(_) => {}
